@@ -209,6 +209,7 @@ def digest(b: bytes):
 
 
 class Relay(Family):
+    realtime = True     # runs on the wall clock (sockets, threads): a failure is re-run once before it counts (core.run_family)
     name = "relay"
     quick_n = 1200
     thorough_n = 20000
@@ -944,6 +945,7 @@ class Overlap(Family):
     running server), each with its own upstream behaviour - bodies of up to 256 KiB sent in pieces with pauses, so that
     one fetch ends while another is in the middle of its body.  Every client must get its own upstream response
     verbatim; an upstream fault of one request (reset, close inside the header) is a 43 for that request only."""
+    realtime = True     # runs on the wall clock (sockets, threads): a failure is re-run once before it counts (core.run_family)
     name = "overlap"
     quick_n = 28
     thorough_n = 600
